@@ -386,7 +386,11 @@ func pnEmptyScenario(n, empty int) func() {
 // pnMutateScenario: the per-node function changes the message it is given in place and returns it. The
 // generated documentation says it receives a copy of the request, so this is legal; every node must still
 // receive its own f(request, i), and the caller's request must be unchanged.
-func pnMutateScenario(kind string, n int) func() {
+func pnMutateScenario(kind string, n int) func() { return pnCopyScenario(kind, n, false, nil) }
+
+// pnCopyScenario: the per-node function treats its argument as its own copy - it changes it in place and
+// returns it, or (scribble) reads it, overwrites it and returns a fresh message, or nothing for a skipped node.
+func pnCopyScenario(kind string, n int, scribble bool, skip []int) func() {
 	return func() {
 		w := world.New(world.Opts{N: n})
 		if w.Cfg == nil {
@@ -399,16 +403,31 @@ func pnMutateScenario(kind string, n int) func() {
 			return world.Reply{}
 		}
 		c := w.NewCall(kind)
-		c.MutateInPlace = true
-		c.Verdict = func(inv *world.QFInv) { inv.Level = len(inv.Keys); inv.Quorum = len(inv.Keys) >= n }
+		c.MutateInPlace = !scribble
+		c.Scribble = scribble
+		c.Skip = skip
+		c.Verdict = func(inv *world.QFInv) { inv.Level = len(inv.Keys); inv.Quorum = len(inv.Keys) >= n-len(skip) }
 		w.Start(c)
 		mc.Quiesce()
 		name, key := fmt.Sprintf("pernode/%s/n=%d/function-changes-its-argument-in-place", kind, n), classOf(kind)+"/in-place"
+		if scribble {
+			name, key = fmt.Sprintf("pernode/%s/n=%d/skip=%v/function-overwrites-its-argument-and-returns-a-fresh-message", kind, n, skip), classOf(kind)+"/scribble"
+		}
 		for id := 1; id <= n; id++ {
 			want := fmt.Sprintf("%s/n%d", c.Req0, id)
 			var got []string
 			for _, e := range w.EventsOf("enter", id) {
 				got = append(got, e.Payload)
+			}
+			skipped := false
+			for _, sk := range skip {
+				skipped = skipped || sk == id
+			}
+			if skipped {
+				if len(got) != 0 {
+					fail("C06/skipped-node-contacted", key, "%s: node %d was skipped by the per-node function but received %q", name, id, got)
+				}
+				continue
 			}
 			if len(got) != 1 || got[0] != want {
 				fail("C06/payload", key, "%s: node %d received %q, expected exactly %q (the per-node function is documented to receive a copy of the request)", name, id, got, want)
@@ -488,6 +507,11 @@ func pnDeepMutateScenario(kind string, n int) func() {
 
 func c06Instances(tier string) []Instance {
 	var out []Instance
+	for _, kind := range []string{"MulticastPerNodeArg", "QuorumCallPerNodeArg", "QuorumCallAsyncPerNodeArg", "CorrectablePerNodeArg"} {
+		for _, skip := range [][]int{nil, {1}, {2}, {1, 2}} {
+			out = append(out, Instance{Name: fmt.Sprintf("pernode/%s/n=3/skip=%v/function-overwrites-its-argument-and-returns-a-fresh-message", kind, skip), Bound: 1, Root: pnCopyScenario(kind, 3, true, skip)})
+		}
+	}
 	for _, kind := range []string{"QuorumCall", "AsyncCall", "CorrectableCall", "Multicast"} {
 		for n := 2; n <= 3; n++ {
 			out = append(out, Instance{Name: fmt.Sprintf("pernode/raw-%s/n=%d/function-changes-a-bytes-field-in-place", kind, n), Bound: 1, Root: pnDeepMutateScenario(kind, n)})
@@ -558,7 +582,7 @@ func c06Instances(tier string) []Instance {
 
 func init() {
 	register(&Check{ID: "C06",
-		Rule:        "(a) n in 1..3 x every skip subset of the per-node function (node-distinct payloads) x 9 call variants that take one + 6 plain variants x threshold {targeted, targeted+1}: each server's received payload (also when the per-node function gives a node a valid all-default message, changes its argument in place, or changes the content of a bytes field of its argument in place), delivery count and the call's completion / counts are compared with f(request, i); (b) unicast / multicast variants x send-waiting on/off x node state {idle, handlers blocked forever, endpoints down, transport window full with earlier messages}: the call must have returned at the first quiescent point without any handler returning (and, with no-send-waiting, without the connection); (c) two one-way calls with {nothing, a stream reset, a crash and restart of every node - each also without any back-off timer expiring afterwards, and with two messages sent back to back by one goroutine afterwards} while the client is idle in between - or striking as an adversary thread during the second call, or the first call's context ending before / during it -, back-off timers fired to a horizon of 4 rounds: every message is handled at most once, and exactly once when the call reported no error; all schedules within the deviation bound; an outcome is (instance, returned, deliveries)",
+		Rule:        "(a) n in 1..3 x every skip subset of the per-node function (node-distinct payloads) x 9 call variants that take one + 6 plain variants x threshold {targeted, targeted+1}: each server's received payload (also when the per-node function gives a node a valid all-default message, changes its argument in place, overwrites its argument and returns a fresh message or nothing, or changes the content of a bytes field of its argument in place), delivery count and the call's completion / counts are compared with f(request, i); (b) unicast / multicast variants x send-waiting on/off x node state {idle, handlers blocked forever, endpoints down, transport window full with earlier messages}: the call must have returned at the first quiescent point without any handler returning (and, with no-send-waiting, without the connection); (c) two one-way calls with {nothing, a stream reset, a crash and restart of every node - each also without any back-off timer expiring afterwards, and with two messages sent back to back by one goroutine afterwards} while the client is idle in between - or striking as an adversary thread during the second call, or the first call's context ending before / during it -, back-off timers fired to a horizon of 4 rounds: every message is handled at most once, and exactly once when the call reported no error; all schedules within the deviation bound; an outcome is (instance, returned, deliveries)",
 		Gen:         c06Instances,
 		Assumptions: []string{"'without waiting' is decided untimed: at quiescence, before any gate is opened or timer fired", "transport is the fakegrpc model with window 1 for the one-way family"},
 	})
